@@ -256,7 +256,8 @@ CLAIMED = {
         'attention response (loop invariant). The Initiator transport step never reports a raw TransmissionError '
         '(it is always answered by NAK/ATN retries): only the response, TimeoutError, ProtocolError or BrokenLinkError; '
         'when the first response of a step is corrupted it sends a NAK and returns the response a conforming Target '
-        'retransmits (information PDU, or ACK while chaining).',
+        'retransmits (information PDU, or ACK while chaining); when the first frame is lost it sends an attention '
+        'request and, after the attention response, the same request again, whose response is the result.',
    design_ref='DESIGN.md Part A sections A.4 (this property), A.8',
    note='NOT decided: exactly-once delivery and reassembly under fault scripts, the composition of two real endpoints '
         '(each is verified against an assumed contract of the step below it), termination of the Target recovery loop, '
@@ -272,7 +273,12 @@ CLAIMED = {
         'number stays in {0,1}, and only Type4TagCommandError escapes, for every command length, frame size and retry '
         'budget (all loops under invariants). Type4ATag activation: for every standard-conformant ATS (any subset of '
         'TA/TB/TC, historical bytes, TL only) miu + 3 equals min(FSC(FSCI), device limit), FWT follows FWI of TB(1) or '
-        'the default, nothing is raised; Type4BTag activation likewise from the protocol info of SENSB_RES.',
+        'the default, nothing is raised; Type4BTag activation likewise from the protocol info of SENSB_RES. Three '
+        'single-fault scripts against a conforming card are decided completely (scripted link whose every expected '
+        'block is an interface obligation): first attempt of a single-block command lost or corrupted -> R(NAK), the '
+        'retransmitted response is returned once; R(ACK) lost while chaining -> R(NAK), repeated R(ACK), the next block '
+        'carries the rest with the toggled number; second block lost -> R(NAK), R(ACK) with the old number, the very '
+        'same block is sent again.',
    design_ref='DESIGN.md Part A sections A.4 (this property), A.8',
    note='NOT decided: at-most-once execution and complete response under fault scripts (needs a card role model '
         'over histories; the loops are verified only for safety), termination of the WTX / retransmit-after-ACK '
